@@ -6,6 +6,7 @@ package main
 // library's type objects.
 
 import (
+	"reflect"
 	"fmt"
 	"math"
 	"math/rand"
@@ -400,6 +401,9 @@ func coerceExec(input sx.S) (obs sx.S) {
 		}
 	}()
 	l := sx.List(input)
+	if l[1].(string) == "outx" {
+		return coerceSliceExec(l)
+	}
 	root := ggql.NewRoot(nil)
 	if err := root.ParseString(coerceSDL); err != nil {
 		return sx.L("schema-error", sx.Hex(err.Error()))
@@ -430,6 +434,80 @@ func coerceExec(input sx.S) (obs sx.S) {
 	}
 	return sx.L("ok", canonOut(out, l[3]))
 }
+
+// coerceSliceExec: a list field of a scalar type whose resolver returns a slice of the values - a
+// typed Go slice ([]float64, []int64, []string, ...) when they share a Go type - through the executor.
+type sliceRoot struct{ v interface{} }
+
+func (r *sliceRoot) Resolve(f *ggql.Field, _ map[string]interface{}) (interface{}, error) {
+	switch f.Name {
+	case "query":
+		return r, nil
+	case "l":
+		return r.v, nil
+	}
+	return nil, nil
+}
+
+func coerceSliceExec(l []sx.S) sx.S {
+	tn := sx.List(l[2])[1].(string)
+	vals := sx.List(l[3])[1:]
+	gos := make([]interface{}, len(vals))
+	same := true
+	for i, v := range vals {
+		gos[i] = coerceGoValue(v)
+		if gos[i] == nil || reflect.TypeOf(gos[i]) != reflect.TypeOf(gos[0]) {
+			same = false
+		}
+	}
+	var list interface{} = gos
+	if same && len(gos) > 0 {
+		sl := reflect.MakeSlice(reflect.SliceOf(reflect.TypeOf(gos[0])), 0, len(gos))
+		for _, g := range gos {
+			sl = reflect.Append(sl, reflect.ValueOf(g))
+		}
+		list = sl.Interface()
+	}
+	root := ggql.NewRoot(&sliceRoot{v: list})
+	if err := root.ParseString("type Query { l: [" + tn + "] }"); err != nil {
+		return sx.L("schema-error", sx.Hex(err.Error()))
+	}
+	wantTime = tn == "Time"
+	res := root.ResolveString("{l}", "", nil)
+	bad := map[int]bool{}
+	if es, ok := res["errors"].([]interface{}); ok {
+		for _, e := range es {
+			em, _ := e.(map[string]interface{})
+			p, _ := em["path"].([]interface{})
+			if len(p) == 2 {
+				if i, ok := p[1].(int); ok {
+					bad[i] = true
+					continue
+				}
+			}
+			return sx.L("error-without-element-path", sx.Hex(fmt.Sprint(em["path"])))
+		}
+	}
+	data, _ := res["data"].(map[string]interface{})
+	outs, ok := data["l"].([]interface{})
+	if !ok || len(outs) != len(vals) {
+		return sx.L("not-a-list-of-that-length", sx.Hex(fmt.Sprintf("%T %v", data["l"], typedKind(list))))
+	}
+	out := []sx.S{"okx"}
+	for i, o := range outs {
+		switch {
+		case bad[i] && o != nil:
+			out = append(out, sx.L("err-with-value", canonOut(o, vals[i])))
+		case bad[i]:
+			out = append(out, sx.L("err"))
+		default:
+			out = append(out, sx.L("ok", canonOut(o, vals[i])))
+		}
+	}
+	return out
+}
+
+func typedKind(v interface{}) string { return reflect.TypeOf(v).String() }
 
 var scalarNames = []string{"Int", "Int64", "Float", "Float64", "String", "Boolean", "ID", "Time"}
 
@@ -490,6 +568,34 @@ func coerceGen(dir string) func(r *rand.Rand, tier string) []Case {
 			}
 		}
 		if dir == "out" {
+			// through the executor: list fields answered with typed slices of 2-4 values of one Go type
+			nsl := 300
+			if tier == "thorough" {
+				nsl = 6000
+			}
+			for i := 0; i < nsl; i++ {
+				t := sx.L("sc", scalarNames[r.Intn(len(scalarNames))])
+				v0 := leaves[r.Intn(len(leaves))]
+				vals := []sx.S{"vals", v0}
+				for j := 1 + r.Intn(3); j > 0; j-- {
+					// mostly values described the same way (same Go type), sometimes anything
+					for try := 0; try < 30; try++ {
+						c := leaves[r.Intn(len(leaves))]
+						if sx.Head(c) == sx.Head(v0) && (r.Intn(4) != 0 || try > 20) {
+							if cl, ok := c.([]sx.S); ok && len(cl) > 1 {
+								if v0l, ok := v0.([]sx.S); ok && len(v0l) > 1 && sx.Head(c) == "i" && sx.String(cl[1]) != sx.String(v0l[1]) && r.Intn(3) != 0 {
+									continue // another integer kind
+								}
+							}
+							vals = append(vals, c)
+							break
+						}
+					}
+				}
+				n++
+				cases = append(cases, Case{ID: fmt.Sprintf("x%d", n), Input: sx.L("coerce", "outx", t, vals),
+					Tags: []string{"nontrivial", "typed-slice-through-the-executor"}, Human: sx.String(t) + " <- " + sx.String(vals)})
+			}
 			return cases
 		}
 		// lists and input objects: random nesting
@@ -580,6 +686,15 @@ func coerceValid(input sx.S) bool {
 	}
 	root := ggql.NewRoot(nil)
 	_ = root.ParseString(coerceSDL)
+	if l[1].(string) == "outx" {
+		if sx.Head(l[2]) != "sc" || sx.Head(l[3]) != "vals" || len(sx.List(l[3])) < 2 {
+			return false
+		}
+		for _, v := range sx.List(l[3])[1:] {
+			_ = coerceGoValue(v)
+		}
+		return true
+	}
 	_ = coerceType(root, l[2])
 	_ = coerceGoValue(l[3])
 	return true
